@@ -440,7 +440,17 @@ def rule_alias(run):
     c03.rule_alias(run)   # views of a locally constructed signal are redirected to the alias as well (keyed by root)
 
 
-RULES = [rule_rows, rule_hops, rule_tokens, rule_exhaustive, rule_casts, rule_flags, rule_siblings, rule_widths, rule_intarith, rule_ext, rule_castmatrix, rule_tracer_tables, rule_resize, rule_views, rule_alias]
+def rule_backend_sites(run):
+    from . import c05
+    c05.rule_backend_sites(run)   # every alternative of a selected assignment is converted for the target
+
+
+def rule_cleanup(run):
+    from . import c08
+    c08.rule_cleanup(run)         # an operator result that is still read (through any view) keeps its computation
+
+
+RULES = [rule_rows, rule_hops, rule_tokens, rule_exhaustive, rule_casts, rule_flags, rule_siblings, rule_widths, rule_intarith, rule_ext, rule_castmatrix, rule_tracer_tables, rule_resize, rule_views, rule_alias, rule_backend_sites, rule_cleanup]
 
 LEVEL = "other"
 EXPLANATION = (
